@@ -215,8 +215,17 @@ def run(job, streams=None):
     gotc = json.loads(json.dumps(comparable(got), default=str))
     viol = []
     d = first_diff(refc, gotc)
-    inconclusive = "cap" in gotc["status"] or "cap" in refc["status"]
-    if d and not inconclusive:
+    inconclusive = ("cap" in gotc["status"] and mode in ("byte", "chunk")) \
+        or "cap" in refc["status"]
+    if "cap" in gotc["status"] and mode in ("asm", "sync", "reframe") and \
+            "cap" not in refc["status"]:
+        viol.append({"rule": "liveness",
+                     "sig": "%s|spin" % mode,
+                     "msg": "mode=%s scenario=%s: no progress within the "
+                     "step cap (the operation keeps asking for the same "
+                     "event) while the ideal-transport run finished" %
+                     (mode, json.dumps(sc, sort_keys=True))})
+    elif d and not inconclusive:
         # classify: liveness vs result difference
         rule = "liveness" if "stuck" in gotc["status"] and \
             "stuck" not in refc["status"] else "outcome"
